@@ -236,26 +236,34 @@ def run(ctx):
     nodes, edges, inits, res = tlc.graph(ctx, "PerFileGraphMC", cfg_text=cfg(["f"], 3, 1, False), workers=8, label="MC + graph 1 file + dir, 3 revisions")
     from vf.tlaval import parse_state
     paths = list(tlc.transition_cover(nodes, edges, inits, rng=ctx.rng, max_len=16))
-    if q:
-        paths = ctx.rng.sample(paths, min(len(paths), 50))
+    ctx.cov["graph"] = {"nodes": len(nodes), "edges": len(edges), "cover_paths": len(paths)}
+    paths = ctx.rng.sample(paths, min(len(paths), 50 if q else 2500))
     for p in paths:
         behs.append(beh_to_py([(act, parse_state(nodes[nid])) for act, nid in p]))
-    ctx.cov["graph"] = {"nodes": len(nodes), "edges": len(edges), "cover_paths": len(paths)}
-    sims, res = tlc.simulate(ctx, "PerFileGraphMC", cfg_text=cfg(["f", "g"], 5 if q else 6, 2, False), num=160 if q else 3000,
+    ctx.cov["graph"]["replayed_paths"] = len(paths)
+    ncover = len(paths)
+    sims, res = tlc.simulate(ctx, "PerFileGraphMC", cfg_text=cfg(["f", "g"], 5 if q else 6, 2, False), num=160 if q else 2000,
                              depth=16 if q else 20, seed=ctx.seed + 1, label="simulate 2 files", timeout=3000)
     behs += [beh_to_py(b) for b in sims]
-    sims, res = tlc.simulate(ctx, "PerFileGraphMC", cfg_text=cfg(["f"], 5 if q else 6, 2, True), num=40 if q else 1000, depth=20, seed=ctx.seed + 2,
+    sims, res = tlc.simulate(ctx, "PerFileGraphMC", cfg_text=cfg(["f"], 5 if q else 6, 2, True), num=40 if q else 500, depth=20, seed=ctx.seed + 2,
                              label="simulate 1 file with remove / re-add", timeout=3000)
     behs += [beh_to_py(b) for b in sims]
     if not q:
-        sims, res = tlc.simulate(ctx, "PerFileGraphMC", cfg_text=cfg(["f"], 6, 1, False), num=1000, depth=18, seed=ctx.seed + 3,
+        sims, res = tlc.simulate(ctx, "PerFileGraphMC", cfg_text=cfg(["f"], 6, 1, False), num=500, depth=18, seed=ctx.seed + 3,
                                  label="simulate 1 file, 6 revisions", timeout=3000)
         behs += [beh_to_py(b) for b in sims]
-    behs = [b for b in behs if len(b[-1][1]["P"]) > 1]
+    behs = [(k < ncover, b) for k, b in enumerate(behs) if len(b[-1][1]["P"]) > 1]
     if not behs:
         ctx.machinery("no behaviour with a commit was generated")
     ctx.cov["behaviours"] = len(behs)
-    jobs = [(fmt, b) for k, b in enumerate(behs) for fmt in (("2a", "pack-0.92") if (not q or k % 2 == 0) else ("2a",))]
+    # simulated behaviours on both formats (quick: every second one); graph-cover paths alternate between the formats
+    jobs = []
+    for k, (cover, b) in enumerate(behs):
+        if cover and not q:
+            fmts = ("2a",) if k % 2 else ("pack-0.92",)
+        else:
+            fmts = ("2a", "pack-0.92") if (not q or k % 2 == 0) else ("2a",)
+        jobs += [(fmt, b) for fmt in fmts]
     core.fork_map(ctx, replay, jobs, chunks_per_proc=8)
     rows = ctx.collected
     ctx.collected = []
@@ -266,7 +274,7 @@ def run(ctx):
             ctx.violation("law:%s:%s:%s" % (law, meta["format"], "merge-history" if merges else "linear-history"),
                           "law %s fails on %s history %s: last-changed %s, file parents %s, check: %s" % (
                               law, meta["format"], row["c"]["P"], row["impl"]["fv"], row["impl"]["fp"], row["impl"]["check"]), row)
-    ctx.rule("behaviours = transition cover of TLC's state graph (1 file + directory, 3 revisions) + TLC -simulate runs (2 files + "
+    ctx.rule("behaviours = transition cover of TLC's state graph (1 file + directory, 3 revisions; quick 50, thorough 2500 of the paths) + TLC -simulate runs (2 files + "
              "directory, <= 5 revisions quick / 6 thorough, <= 2 edits per commit) over modify / move / chmod / directory rename / commit / "
              "merge any missing revision with a per-file THIS-or-OTHER choice / pull on two branches (plus remove / re-add runs); each replayed on 2a and pack-0.92; "
              "evaluations = revisions read back; non-trivial = history with at least one merge revision")
